@@ -30,6 +30,7 @@ TRUSTED_BASE = [
     "the declarations the proofs assume are re-checked by `rfl` on every run (SchemaTie/Curves.lean)",
 ]
 SCHEMA_TIE = ('Curves',)
+SQL_TIE = ('pestfiles', 'simulate_rise', 'simulate_recession')
 ASSUMPTIONS = ["both functions use the same parameterisation (spline/spline or peatclsm/peatclsm), as in the shipped parameter files",
                "the curves observation file is the rise vector output followed by the recession vector output"]
 RULE = ("planted datasets with varying numbers of rise and recession levels (tens to hundreds; one dataset per quick run "
@@ -45,6 +46,14 @@ def pestfile(ctx, kind, db, params, typ):
     with open(pfile, "w") as fh:
         yaml.safe_dump(params, fh)
     out = ctx.scratch("pest.out")
+    if ctx.rng.random() < 0.2:
+        import contextlib
+        import io
+        buf = io.StringIO()
+        with contextlib.redirect_stdout(buf):
+            r = cli.run(["pestfiles", kind, db, pfile, typ])
+        ctx.count("pestfiles_to_stdout")
+        return r, buf.getvalue()
     r = cli.run(["pestfiles", kind, db, pfile, typ, "-o", out])
     import gc
     gc.collect()
@@ -141,6 +150,11 @@ def dataset_checks(ctx, tr, zstep, w, params_list, simulate=True):
                 r4, tab_rec = sim.simulate_cli(ctx, "recession", w["db"], params, False)
                 if any(r[0] != "ok" for r in (r1, r2, r3, r4)):
                     ctx.count("simulate_failed")
+                elif any(b for _x, b in (sim.parse_vector(out_rise), sim.parse_vector(out_rec), sim.parse_table(tab_rise),
+                                         sim.parse_table(tab_rec))):
+                    bad = [b for _x, b in (sim.parse_vector(out_rise), sim.parse_vector(out_rec), sim.parse_table(tab_rise),
+                                           sim.parse_table(tab_rec)) if b]
+                    wit = {"why": "the output of a simulate command is not the table / vector of the curve: " + bad[0]}
                 else:
                     vec = yaml.safe_load(out_rise) + yaml.safe_load(out_rec)
                     rows = yaml.safe_load(tab_rise)[1:] + yaml.safe_load(tab_rec)[1:]
